@@ -101,6 +101,14 @@ class ObjV:
         self.model = model
 
 
+class OptIntV:
+    """An `int | None` value kept unsplit: is_none (z3 Bool) and val (z3 Int, meaningful when not None)."""
+
+    def __init__(self, is_none, val):
+        self.is_none = is_none
+        self.val = val
+
+
 class MethodHook:
     """A modelled method of an opaque value: fn(engine, obj, *args) -> value."""
 
@@ -190,6 +198,8 @@ def py_type_of(v):
         raise Unsupported(f"sort {v.sort()}")
     if isinstance(v, ListV):
         return list
+    if isinstance(v, OptIntV):
+        raise Unsupported("type of an unsplit optional int")
     if isinstance(v, OpaqueV):
         return v.pytype
     if isinstance(v, ObjV):
@@ -204,7 +214,7 @@ def py_type_of(v):
 def is_symbolic(v):
     if isinstance(v, (tuple, list)):
         return any(is_symbolic(x) for x in v)
-    return isinstance(v, (z3.ExprRef, ListV, OpaqueV, ObjV, Closure, BoundM, ExcV))
+    return isinstance(v, (z3.ExprRef, ListV, OpaqueV, ObjV, Closure, BoundM, ExcV, OptIntV))
 
 
 ASCII_LETTER = z3.Union(z3.Range("a", "z"), z3.Range("A", "Z"))
@@ -227,12 +237,14 @@ class Engine:
     MAX_PATHS = 4000
 
     def __init__(self, contract: Contract, sigcase: dict, prop_filter=None, unroll=None,
-                 feas_timeout=3000, exclusions=None):
+                 feas_timeout=3000, exclusions=None, case=None):
         self.exclusions = exclusions or {}
+        self.case = case
         self.c = contract
         self.sigcase = sigcase  # param -> SigT (no OneOf)
         self.prop_filter = prop_filter
-        self.unroll = unroll
+        self.unroll = unroll if unroll is not None else contract.unroll
+        self.cuts = set()
         self.feas_timeout = feas_timeout
         self.fn_obj, self.fn_node, self.module, self.src_info = resolve_target(contract.target)
         self.obligations: dict[str, Obligation] = {}
@@ -241,6 +253,8 @@ class Engine:
         self.assumption_notes = set()
         self.feas_cache = {}
         self.case_label = ",".join(f"{k}:{v.name}" for k, v in sigcase.items()) or "-"
+        if case is not None:
+            self.case_label += f"|case:{case}"
         self._call_ordinals = None
 
     # -------------------------------------------------------------- driving
@@ -251,7 +265,11 @@ class Engine:
             n += 1
             if n > self.MAX_PATHS:
                 raise Unsupported("too many paths")
+            t0 = __import__("time").time()
             self.run_path(prefix)
+            if __import__("os").environ.get("PYVC_DEBUG"):
+                print(f"  path {n} trace={' '.join(str(l)+('T' if d else 'F') for l, d in self.trace)} "
+                      f"obl={len(self.obligations)} {__import__('time').time()-t0:.1f}s", flush=True)
         return self
 
     def fresh(self, base, sort="int"):
@@ -310,6 +328,8 @@ class Engine:
         self.decisions = list(prefix)
         self.dpos = 0
         self.pc = []
+        self.trace = [] if __import__("os").environ.get("PYVC_DEBUG") else None
+        L.ENTAILS = self.entails
         self.counter = 0
         self.loop_seen = {}
         self.ghost = {}
@@ -344,6 +364,12 @@ class Engine:
                     return
                 if isinstance(r, z3.ExprRef):
                     self.pc.append(r)
+            if self.case is not None:
+                cp = self.c.cases[self.case](self.pre)
+                if cp is False:
+                    return
+                if isinstance(cp, z3.ExprRef):
+                    self.pc.append(cp)
             outcome = None
             try:
                 self.exec_block(self.fn_node.body, frame)
@@ -364,16 +390,48 @@ class Engine:
 
     # -------------------------------------------------------------- decisions
     def feasible(self, cond):
+        """Is pc ∧ cond possibly satisfiable?  Stage 1: ground part only (decidable, fast);
+        stage 2: with the quantified facts under a small deterministic resource limit.  `unknown`
+        counts as feasible: pruning is an optimisation, never a verdict."""
         key = (tuple(x.get_id() for x in self.pc), cond.get_id())
         if key in self.feas_cache:
             return self.feas_cache[key]
+        ground = [p for p in self.pc if not _has_quantifier(p)]
         s = z3.Solver()
         s.set("timeout", self.feas_timeout)
-        for p in self.pc:
+        s.set("smt.mbqi", False)
+        for p in ground:
             s.add(p)
         s.add(cond)
         r = s.check()
         res = r != z3.unsat
+        if res and len(ground) != len(self.pc):
+            s2 = z3.Solver()
+            s2.set("smt.mbqi", False)
+            s2.set("rlimit", int(__import__("os").environ.get("PYVC_RLIMIT", "400000")))
+            for p in self.pc:
+                s2.add(p)
+            s2.add(cond)
+            res = s2.check() != z3.unsat
+        self.feas_cache[key] = res
+        return res
+
+    def entails(self, cond):
+        """pc implies cond (ground check only; False when unsure)"""
+        cond = z3.simplify(cond)
+        if z3.is_true(cond):
+            return True
+        key = ("ent", tuple(x.get_id() for x in self.pc), cond.get_id())
+        if key in self.feas_cache:
+            return self.feas_cache[key]
+        s = z3.Solver()
+        s.set("timeout", 1000)
+        s.set("smt.mbqi", False)
+        for p in self.pc:
+            if not _has_quantifier(p):
+                s.add(p)
+        s.add(z3.Not(cond))
+        res = s.check() == z3.unsat
         self.feas_cache[key] = res
         return res
 
@@ -404,6 +462,8 @@ class Engine:
             self.decisions.append(d)
         self.dpos += 1
         self.pc.append(cond if d else z3.Not(cond))
+        if self.trace is not None:
+            self.trace.append((getattr(self, "cur_line", 0), d))
         return d
 
     def choose(self, n):
@@ -554,6 +614,7 @@ class Engine:
             self.exec_stmt(s, fr)
 
     def exec_stmt(self, s, fr):
+        self.cur_line = getattr(s, "lineno", 0)
         m = getattr(self, "st_" + type(s).__name__, None)
         if m is None:
             raise Unsupported(f"statement {type(s).__name__} at line {getattr(s, 'lineno', '?')}")
@@ -730,6 +791,7 @@ class Engine:
                     return
                 n += 1
                 if self.unroll is not None and n > self.unroll:
+                    self.cuts.add(f"while-loop #{ordn} cut after {self.unroll} iterations")
                     raise PathEnd()
                 if n > 2000:
                     raise Unsupported(f"while loop #{ordn} needs an invariant")
@@ -766,6 +828,7 @@ class Engine:
                     if not self.decide(zint(k) < zint(n)):
                         return
                     if k >= self.unroll:
+                        self.cuts.add(f"for-loop #{ordn} cut after {self.unroll} iterations")
                         raise PathEnd()
                     self.assign(s.target, self.seq_item(it, k), fr)
                     k += 1
@@ -1010,7 +1073,7 @@ class Engine:
             if isinstance(static, property):
                 if static.fset is None:
                     raise PyRaise(AttributeError, name)
-                return self.call(static.fset, [obj, v], {})
+                return self.call(static.fset, [obj, v], {}, key=target_key(static.fset) + ".fset")
             obj.fields[name] = v
             return
         raise Unsupported(f"setattr on {type(obj).__name__}")
@@ -1138,9 +1201,28 @@ class Engine:
             return v.model.to_str(self, v)
         return self.fresh("str", "str")
 
+    def force(self, v):
+        """Split an unsplit optional int into None / int (forks)."""
+        if isinstance(v, OptIntV):
+            if self.decide(v.is_none):
+                return None
+            return v.val
+        return v
+
     def ex_BoolOp(self, e, fr):
         # python semantics: returns the deciding operand
         is_and = isinstance(e.op, ast.And)
+        if not is_and and len(e.values) == 2 and isinstance(e.values[1], ast.Constant) \
+                and isinstance(e.values[1].value, int) and not isinstance(e.values[1].value, bool):
+            # `x or <int constant>` on ints / optional ints: no fork, an if-then-else term
+            v = self.ev(e.values[0], fr)
+            c = e.values[1].value
+            if isinstance(v, OptIntV):
+                return simp_int(z3.If(z3.Or(v.is_none, v.val == 0), z3.IntVal(c), v.val))
+            if isinstance(v, z3.ExprRef) and z3.is_int(v):
+                return simp_int(z3.If(v == 0, z3.IntVal(c), v))
+            t = self.truth(v)
+            return v if self.decide(t) else c
         v = None
         for i, sub in enumerate(e.values):
             v = self.ev(sub, fr)
@@ -1187,6 +1269,7 @@ class Engine:
         return v
 
     def binop(self, op, a, b):
+        a, b = self.force(a), self.force(b)
         if not is_symbolic(a) and not is_symbolic(b):
             try:
                 return _native_binop(op, a, b)
@@ -1319,6 +1402,7 @@ class Engine:
         if isinstance(op, (ast.Is, ast.IsNot)):
             r = self.is_same(a, b)
             return r if isinstance(op, ast.Is) else S.Not(r)
+        a, b = self.force(a), self.force(b)
         if isinstance(op, (ast.In, ast.NotIn)):
             r = self.contains(b, a)
             return r if isinstance(op, ast.In) else S.Not(r)
@@ -1385,6 +1469,10 @@ class Engine:
         return False
 
     def is_same(self, a, b):
+        if isinstance(a, OptIntV) and b is None:
+            return a.is_none
+        if isinstance(b, OptIntV) and a is None:
+            return b.is_none
         if a is None or b is None:
             return a is b
         if isinstance(a, (ListV, ObjV, OpaqueV)) or isinstance(b, (ListV, ObjV, OpaqueV)):
@@ -1434,6 +1522,8 @@ class Engine:
     def truth(self, v):
         if v is None:
             return False
+        if isinstance(v, OptIntV):
+            return z3.And(z3.Not(v.is_none), v.val != 0)
         if isinstance(v, z3.ExprRef):
             if z3.is_bool(v):
                 return v
@@ -1678,7 +1768,7 @@ class Engine:
         self.cur_call_node = e
         return self.call(fn, args, kwargs)
 
-    def call(self, fn, args, kwargs):
+    def call(self, fn, args, kwargs, key=None):
         from . import builtins_model as BM
 
         if isinstance(fn, Closure):
@@ -1697,9 +1787,7 @@ class Engine:
         model = BM.lookup(fn)
         if model is not None:
             return model(self, *args, **kwargs)
-        key = target_key(fn)
-        if key is not None and key != self.c.target or (key == self.c.target and self.depth_of(key) > 0):
-            pass
+        key = key or target_key(fn)
         if key is not None:
             con = REGISTRY.get(key)
             if key in self.c.inline or (con is None and key in INLINE_OK):
@@ -1781,6 +1869,7 @@ class Engine:
     def apply_contract(self, con: Contract, fn, args, kwargs):
         """Modular call: check the callee's precondition, assume its postcondition."""
         vals = self.bind_args(con, fn, args, kwargs)
+        vals = {k: self.force(v) for k, v in vals.items()}
         node = getattr(self, "cur_call_node", None)
         site = self.call_site_id(node, con.target)
         if con.call is not None:
@@ -1805,12 +1894,16 @@ class Engine:
             res = None
         elif alias is not None:
             res = None
+        elif con.result_term is not None:
+            res = ListV(con.result_term(pre))
         else:
             alts = rt.alternatives()
             k = self.choose(len(alts))
             res = self.make_fresh_of(f"{short(con.target)}.res", alts[k])
         # havoc mutated list arguments
-        if con.modifies is not None:
+        if con.modifies is not None and alias is not None and con.result_term is not None:
+            alias.term = con.result_term(pre)
+        elif con.modifies is not None:
             for nme in con.modifies(pre) if callable(con.modifies) else con.modifies:
                 v = vals[nme]
                 if isinstance(v, ListV):
@@ -1821,7 +1914,11 @@ class Engine:
             res = alias
         post = self.views(vals)
         r = self.view(res)
-        for cl in con.ensures:
+        ens = con.ensures
+        if con.result_term is not None:
+            # the result IS the spec term: the pointwise / well-formedness clauses are consequences
+            ens = [cl for cl in con.ensures if getattr(cl, "assume_always", False)]
+        for cl in ens:
             if cl.when is not None:
                 w = cl.when(pre)
                 if w is False:
@@ -1846,6 +1943,30 @@ class Engine:
             self._call_ordinals = ords
         k = self._call_ordinals.get(id(node), "x")
         return f"{short(target)}#{k}"
+
+
+_QCACHE = {}
+
+
+def _has_quantifier(e):
+    k = e.get_id()
+    r = _QCACHE.get(k)
+    if r is not None:
+        return r
+    todo = [e]
+    seen = set()
+    r = False
+    while todo:
+        t = todo.pop()
+        if t.get_id() in seen:
+            continue
+        seen.add(t.get_id())
+        if z3.is_quantifier(t):
+            r = True
+            break
+        todo.extend(t.children())
+    _QCACHE[k] = r
+    return r
 
 
 class SymRange:
